@@ -69,6 +69,8 @@ static inline bool op2_bytes_eq(const void* a, const void* b, size_t n)
       && OP2_BE(12) && OP2_BE(13) && OP2_BE(14) && OP2_BE(15) && OP2_BE(16) && OP2_BE(17) && OP2_BE(18) && OP2_BE(19) && OP2_BE(20) && OP2_BE(21) && OP2_BE(22)
       && OP2_BE(23) && OP2_BE(24) && OP2_BE(25) && OP2_BE(26) && OP2_BE(27) && OP2_BE(28) && OP2_BE(29) && OP2_BE(30) && OP2_BE(31);
 }
+/* memcmp on at most 32 bytes, used only as a zero / non-zero test (the sign of the result is not modelled) */
+static inline int op2_memcmp(const void* a, const void* b, size_t n) { __CPROVER_assert(n <= 32, "op2_memcmp: at most 32 bytes"); return op2_bytes_eq(a, b, n) ? 0 : 1; }
 #define OP2_BYTES_EQ(a, b) (sizeof(a) <= 32 ? op2_bytes_eq(&(a), &(b), sizeof(a)) : (memcmp(&(a), &(b), sizeof(a)) == 0))
 #define OP2_AC(A, v, k) ((k) < sizeof((A).e) / sizeof((A).e[0]) && (A).e[(k) < sizeof((A).e) / sizeof((A).e[0]) ? (k) : 0] == (v))
 #define OP2_ARR_CONTAINS(A, v) (OP2_AC(A, v, 0) || OP2_AC(A, v, 1) || OP2_AC(A, v, 2) || OP2_AC(A, v, 3) || OP2_AC(A, v, 4) || OP2_AC(A, v, 5) || OP2_AC(A, v, 6) || OP2_AC(A, v, 7))
